@@ -84,3 +84,43 @@ def value_equal_world(rng, nobj):
                 W["objs"][k]["f"][name] = copy.deepcopy(src[name])
     W["eq"] = "value"
     return W
+
+
+def rooms_world(rng):
+    """A world shaped like "the rooms that have a worker who masters every requirement": objects 1-3 are ranged over by
+    the free variable x, 4-7 by the universal variable u (distinct m, n >= 1 mostly), 8-11 by the second free variable y
+    whose ref points at one of the x objects and whose items hold some of the u.m / u.n values.  Returns (W, doms)."""
+    W = random_world(rng, 11)
+    o = W["objs"]
+    ms = [0, 1, 2, rng.choice([0, 1, 2])]
+    rng.shuffle(ms)
+    for k in range(3, 7):
+        o[k]["f"]["m"] = iv(ms[k - 3])
+        o[k]["f"]["n"] = iv(rng.choice([1, 1, 2, 0]))
+    for k in range(7, 11):
+        o[k]["f"]["ref"] = {"t": "obj", "v": rng.randint(1, 3)}
+        items = [v for v in (0, 1, 2) if rng.random() < 0.65]
+        o[k]["f"]["items"] = {"t": "list", "v": [iv(v) for v in items]}
+        o[k]["f"]["n"] = iv(rng.choice([1, 2, 2]))
+    doms = [rng.sample([1, 2, 3], rng.randint(2, 3)), rng.sample([4, 5, 6, 7], rng.randint(3, 4)),
+            rng.sample([8, 9, 10, 11], rng.randint(2, 4))]
+    return W, doms
+
+
+def rooms_covering_world(rng):
+    """The textbook instance of "rooms that have a worker who masters every needed requirement": rooms 1-3; requirements
+    4-7 (m = tag 0, 1, 2 needed i.e. n = 1, and one not needed, n = 0); workers 8-11: room 1 has every needed tag
+    mastered but by different workers, the worker of room 2 lacks one tag, the worker of room 3 masters all.
+    Domain orders are permuted."""
+    W = random_world(rng, 11)
+    o = W["objs"]
+    for k, (n, m) in enumerate([(1, 0), (1, 1), (1, 2), (0, 1)]):
+        o[3 + k]["f"]["n"], o[3 + k]["f"]["m"] = iv(n), iv(m)
+    for k, (room, items) in enumerate([(1, [0]), (1, [1, 2]), (2, [0, 1]), (3, [0, 1, 2])]):
+        o[7 + k]["f"]["ref"] = {"t": "obj", "v": room}
+        o[7 + k]["f"]["items"] = {"t": "list", "v": [iv(v) for v in items]}
+        o[7 + k]["f"]["n"] = iv(2)
+    for k in range(3):
+        o[k]["f"]["n"] = iv(rng.choice([1, 2]))
+    doms = [rng.sample([1, 2, 3], 3), rng.sample([4, 5, 6, 7], 4), rng.sample([8, 9, 10, 11], 4)]
+    return W, doms
